@@ -468,9 +468,13 @@ func c14(run *ev.Run, tier string) {
 			mi, pa = 99, 99
 		}
 		pre := rng.Pick(r, []string{"rc1", "beta.2", "alpha", "0", "rc-1", "SNAPSHOT", "z", "pre.10"})
+		if r.P(1, 5) {
+			// components that repeat the tail of the version (1.2.3-3, 1.2.0-0+0)
+			pre = strconv.Itoa(pa)
+		}
 		meta, rel, epoch := "", "", ""
 		if r.P(1, 2) {
-			meta = rng.Pick(r, []string{"git", "build.5", "0"})
+			meta = rng.Pick(r, []string{"git", "build.5", "0", strconv.Itoa(pa), pre})
 		}
 		if r.P(1, 2) {
 			rel = rng.Pick(r, []string{"1", "2", "10"})
